@@ -16,14 +16,15 @@ ObsOK(o) ==
   /\ o.wire = wire'
   /\ o.att = att'
   /\ o.cons = cons'
-  /\ \A s \in Streams : o.rep[s] = st'[s].rep
+  /\ \A s \in Streams : o.rep[s] = st'[s].rep + st'[s].ref
   \* waiting for the SETCONF answer and waiting for the circuit look the same from outside: not yet connecting
   /\ \A i \in 1..Len(ConnOrder) : o.via[i] = (IF via'[ConnOrder[i]].st \in {"waitconf", "waitbuilt"} THEN "wait" ELSE via'[ConnOrder[i]].st)
   /\ ~o.exc
 PropsOK == ToldMatches' /\ ConsultedInOrder' /\ OneDecision' /\ NothingForExit' /\ ViaExact' /\ Answered' /\ ViaNeverRefused'
+RF(e) == IF "rf" \in DOMAIN e THEN e.rf ELSE FALSE
 Step(e) ==
-  CASE e.a = "NewStream"   -> NewStream(e.s, e.kind, e.p, e.ans, e.mode)
-    [] e.a = "Answer"      -> Answer(e.s)
+  CASE e.a = "NewStream"   -> NewStream(e.s, e.kind, e.p, e.ans, e.mode, RF(e))
+    [] e.a = "Answer"      -> Answer(e.s, RF(e))
     [] e.a = "StreamFailed" -> StreamFailed(e.s)
     [] e.a = "LateClosed"  -> LateClosed(e.s)
     [] e.a = "SetAttacher" -> SetAttacher(e.who, IF "late" \in DOMAIN e THEN e.late ELSE FALSE)
@@ -33,7 +34,7 @@ Step(e) ==
     [] e.a = "CircStep"    -> CircStep(e.c, e.to)
     [] e.a = "AddSub"      -> AddSub(e.x, e.prio)
     [] e.a = "RemSub"      -> RemSub(e.x)
-    [] e.a = "NewStreamP"  -> NewStreamP(e.s, e.kind, e.p, e.sa)
+    [] e.a = "NewStreamP"  -> NewStreamP(e.s, e.kind, e.p, e.sa, RF(e))
     [] OTHER -> FALSE
 TInit == Init /\ tid \in 1..Len(Traces) /\ l = 1
 TNext ==
